@@ -20,6 +20,7 @@ pid_t __real_wait(int *);
 pid_t __real_waitpid(pid_t, int *, int);
 int __real_kill(pid_t, int);
 int __real_unlink(const char *);
+int __real_access(const char *, int);
 int __real_mkstemp(char *);
 ssize_t __real_readlink(const char *, char *, size_t);
 void *__real_malloc(size_t);
@@ -123,6 +124,9 @@ struct Proc {
 	bool killed_by_driver = false;
 	int spawn_step = 0, death_step = -1;
 	bool blocked_w_seen = false;
+	int stop_at = -1, stop_len = 0;   // SIGSTOP at own step stop_at for stop_len scheduler steps
+	int stop_left = 0;
+	bool stop_unreported = false;
 };
 
 struct Kernel {
@@ -343,6 +347,7 @@ bool Kernel::runnable(Proc &p) {
 	if (p.stray) return true;
 	if (p.pending_sig) return true;
 	if (p.mode == M_SIGKILL && step >= p.param) return true;
+	if (p.stop_left > 0) return true;
 	switch (p.phase) {
 	case PH_START: case PH_EXIT: return true;
 	case PH_READ:
@@ -383,6 +388,19 @@ void Kernel::step_proc(Proc &p) {
 		return;
 	}
 	if (p.mode == M_SIGKILL && step >= p.param) { die(p, SIGKILL, true, true, "SIGKILL"); return; }
+	if (p.stop_left > 0) {
+		// stopped: the step is time passing until SIGCONT
+		if (--p.stop_left == 0) logf("  [%d] pid %d %s continued", step, p.pid, stage_name[p.kind]);
+		return;
+	}
+	if (p.stop_at >= 0 && p.own_steps >= p.stop_at) {
+		p.stop_at = -1;
+		p.stop_left = p.stop_len > 0 ? p.stop_len : 1;
+		p.stop_unreported = true;
+		logf("  [%d] pid %d %s stopped (SIGSTOP) for %d steps", step, p.pid, stage_name[p.kind], p.stop_left);
+		probe("tool_stopped_and_continued");
+		return;
+	}
 	p.own_steps++;
 	if (p.mode == M_SIGSEGV && p.own_steps > p.param) { die(p, p.code, true, true, "fatal signal (SIGSEGV class)"); return; }
 	switch (p.phase) {
@@ -610,6 +628,7 @@ int __wrap_posix_spawnp(pid_t *pidp, const char *file, const posix_spawn_file_ac
 	else p.group = K->next_group++;
 	if (ev.out_kind == FD_PIPEW) K->pipes[ev.out_pipe].group = p.group;
 	for (auto &pl : K->sc->plans) if (pl.kind == kind && pl.occ == p.occ) { p.mode = pl.mode; p.param = pl.param; p.code = pl.mode == M_SIGSEGV ? (pl.code ? pl.code : (SIGSEGV | 0x80)) : (pl.code ? pl.code : 1); }
+	for (auto &sp : K->sc->stops) if (sp.kind == kind && sp.occ == p.occ) { p.stop_at = sp.at; p.stop_len = sp.duration; }
 	ev.pid = p.pid; ev.ok = true; ev.group = p.group;
 	K->spawns.push_back(ev);
 	K->procs.push_back(p);
@@ -619,7 +638,7 @@ int __wrap_posix_spawnp(pid_t *pidp, const char *file, const posix_spawn_file_ac
 	return 0;
 }
 
-static pid_t do_wait(pid_t want, int *st) {
+static pid_t do_wait(pid_t want, int *st, int opts) {
 	K->enter("wait");
 	if (K->driver_phase == 0) K->driver_phase = 1;
 	for (;;) {
@@ -631,6 +650,13 @@ static pid_t do_wait(pid_t want, int *st) {
 			if (p.state == REAPED) continue;
 			if (want > 0 && p.pid != want) continue;
 			any = true;
+			if ((opts & WUNTRACED) && p.state == RUNNING && p.stop_left > 0 && p.stop_unreported) {
+				// a stopped child is reported once to a waiter that asked for it
+				p.stop_unreported = false;
+				if (st) *st = (SIGSTOP << 8) | 0x7f;
+				K->logf("[%d] wait -> pid %d stopped (WUNTRACED)", K->step, p.pid);
+				return p.pid;
+			}
 			if (p.state == ZOMBIE) z.push_back((int)i);
 		}
 		if (!any) { errno = ECHILD; K->logf("[%d] wait -> ECHILD", K->step); return -1; }
@@ -660,10 +686,10 @@ static pid_t do_wait(pid_t want, int *st) {
 	}
 }
 
-pid_t __wrap_wait(int *st) { return IN_DRIVER ? do_wait(-1, st) : __real_wait(st); }
+pid_t __wrap_wait(int *st) { return IN_DRIVER ? do_wait(-1, st, 0) : __real_wait(st); }
 pid_t __wrap_waitpid(pid_t pid, int *st, int opts) {
 	if (!IN_DRIVER) return __real_waitpid(pid, st, opts);
-	return do_wait(pid, st);
+	return do_wait(pid, st, opts);
 }
 
 int __wrap_kill(pid_t pid, int sig) {
@@ -716,6 +742,17 @@ int __wrap_unlink(const char *path) {
 	K->paths.erase(it);
 	K->logf("[%d] unlink(%s)", K->step, path);
 	return 0;
+}
+
+int __wrap_access(const char *path, int mode) {
+	if (!IN_DRIVER) return __real_access(path, mode);
+	K->enter("access");
+	(void)mode;
+	bool ex = K->paths.count(path) != 0;
+	K->logf("[%d] access(%s) -> %s", K->step, path, ex ? "0" : "ENOENT");
+	if (ex) return 0;
+	errno = ENOENT;
+	return -1;
 }
 
 ssize_t __wrap_readlink(const char *path, char *buf, size_t size) {
